@@ -43,6 +43,12 @@ ENTRY = dict(
             "exceed ceil(N)), and no raw conditional-table entry of the DFS lies in (0,1e-14]; otherwise the mass lost is bounded as stated",
             "hypothesis N <= 1e14 (atol*N <= 1) in c04_exact_complete/c04_count_sum/c04_unbiased: beyond it the all-exact branch "
             "drops maps with 1/N <= p < 1e-14 (non-vacuity example c04_ex_bound_needed); the property's range is N <= 1e6 or infinity",
+            "observation: a single zeroed table entry carries conditional mass <= 1e-14, but zeroings accumulate along the tree (two maps of "
+            "2^-47 under one prefix drop 2^-46 > 1e-14 together): the property's 'up to the 1e-14 cutoff' is read as the bound of "
+            "c04_count_sum, N*1e-14*(#prefixes+1); judge uses the same bound",
+            "harness: numpy.random.choice is replaced by a stub that applies numpy's own argument checks (ValueError if p does not sum "
+            "to 1 within sqrt(eps), negative, NaN) and, on the seeded streams, delegates to the real numpy.random.choice; results with "
+            "non-finite weights are canonicalised as crashes; the real-gate public stream is compared as a set (near-ties in the sort key)",
             "the model has the REPAIRED F9 behaviour (`if samples_needed < 1: return retval`); on the unrepaired /repo the implementation "
             "raises AssertionError on such inputs and the run reports a VIOLATION",
             "c04_machine_refines_spec compares numbers with Qeq (the machine's first running product is probs[0][0], the "
